@@ -79,7 +79,7 @@ func runC12(c *Ctx) {
 	n := 0
 	n += checkGuarded(c, lc, scope, GuardSpec{Type: pkgProxy + ":Proxy", Mutex: "muP", Fields: []string{"playerIDs", "playerNames"}, NoEscape: true})
 	n += checkGuarded(c, lc, scope, GuardSpec{Type: pkgProxy + ":Proxy", Mutex: "muS", Fields: []string{"servers", "configServers"}, NoEscape: true})
-	n += checkGuarded(c, lc, scope, GuardSpec{Type: pkgProxy + ":players", Mutex: "mu", Fields: []string{"list"}, NoEscape: true})
+	n += checkGuarded(c, lc, scope, GuardSpec{Type: pkgProxy + ":players", Mutex: "mu", Fields: []string{"*"}, NoEscape: true})
 	c.Floor("guarded", 30)
 	c.Floor("escape", 15)
 	c.Info["access_sites"] = n
